@@ -15,6 +15,7 @@ const (
 	FIN                  // bare FIN at the end of the stream
 	RST                  // bare RST at the end of the stream
 	FLUSHOLD             // age flush with a cut-off after everything seen so far
+	RSTAT                // bare RST at stream offset A (the sender gives up mid-stream: the stream ends there)
 )
 
 type Event struct {
@@ -39,6 +40,8 @@ func (e Event) String() string {
 		return "FIN"
 	case RST:
 		return "RST"
+	case RSTAT:
+		return fmt.Sprintf("RST@%d", e.A)
 	}
 	return "FlushOlder"
 }
@@ -121,6 +124,8 @@ func (e Event) Segment(isn uint32, n int) Segment {
 		return Segment{Seq: isn + 1 + uint32(n), FIN: true}
 	case RST:
 		return Segment{Seq: isn + 1 + uint32(n), RST: true}
+	case RSTAT:
+		return Segment{Seq: isn + 1 + uint32(e.A), RST: true}
 	}
 	panic("not a segment")
 }
@@ -142,6 +147,7 @@ type Dir struct {
 	N       int
 	Arrived []bool
 	FinSeen bool // a segment with FIN or RST has arrived (they sit at the end of the stream)
+	Ends    []int // stream offsets at which a FIN or RST has arrived (nil: only N is possible)
 }
 
 func NewDir(n int) *Dir { return &Dir{N: n, Arrived: make([]bool, n)} }
@@ -149,6 +155,11 @@ func NewDir(n int) *Dir { return &Dir{N: n, Arrived: make([]bool, n)} }
 func (d *Dir) Arrive(e Event) {
 	if e.K == FIN || e.K == RST || (e.K == DATA && e.Fin) {
 		d.FinSeen = true
+		d.Ends = append(d.Ends, d.N)
+	}
+	if e.K == RSTAT {
+		d.FinSeen = true
+		d.Ends = append(d.Ends, e.A)
 	}
 	switch e.K {
 	case SYNDATA:
@@ -158,6 +169,20 @@ func (d *Dir) Arrive(e Event) {
 			d.Arrived[i] = true
 		}
 	}
+}
+
+func (d *Dir) endsAt(pos int) bool {
+	if len(d.Ends) == 0 {
+		return pos == d.N
+	}
+	for _, e := range d.Ends {
+		// a FIN sits at N. A mid-stream RST at offset e ends the stream wherever the receiver
+		// stands when it is processed (an RST behind the delivered position still closes).
+		if e == pos || (e < d.N && pos >= e) {
+			return true
+		}
+	}
+	return false
 }
 
 // ContigEnd is the end of the contiguous arrived prefix.
@@ -247,7 +272,7 @@ func (in *Inst) Deliver(dir *Dir, d Delivery, ctx StepCtx) (string, string) {
 		if !dir.FinSeen {
 			return "end-without-fin", fmt.Sprintf("hand-over %d reports the end of the stream at offset %d although no FIN or RST has arrived", in.Deliveries, in.Pos)
 		}
-		if in.Pos != dir.N {
+		if !dir.endsAt(in.Pos) {
 			return "end-before-the-fin-position", fmt.Sprintf("hand-over %d reports the end of the stream at offset %d, the sender's FIN sits at %d", in.Deliveries, in.Pos, dir.N)
 		}
 	}
